@@ -132,7 +132,17 @@ def run(ctx):
         rng.shuffle(cuts)
         try:
             flat = pronto.rlc_to_pronto(freq, list(dd)).split(' ')
-            for c in cuts + [None]:
+            for c in cuts + [None, 'twice']:
+                if c == 'twice':
+                    # the once sequence and the repeat sequence are the same durations (a held key learned as once + repeat)
+                    got = pronto.rlc_to_pronto(freq, [list(dd), list(dd)]).split(' ')
+                    want = flat[:2] + ['%04X' % (len(dd) // 2)] * 2 + flat[4:] + flat[4:]
+                    back = pronto.pronto_to_rlc(' '.join(got))[1]
+                    ctx.count_eval(key=('structure', freq, tuple(dd[:4]), len(dd), c))
+                    if got != want or [len(x) for x in back] != [len(dd), len(dd)]:
+                        ctx.report('pronto', 'once sequence equal to the repeat sequence is not kept', dict(n=len(dd)),
+                                   dict(freq=freq, data=dd, pronto=' '.join(got), expected=' '.join(want), decoded_lengths=[len(x) for x in back]))
+                    continue
                 arg = list(dd) if c is None else [list(dd[:c]), list(dd[c:])]
                 got = pronto.rlc_to_pronto(freq, arg).split(' ')
                 want = flat if c is None else flat[:2] + ['%04X' % (c // 2), '%04X' % ((len(dd) - c) // 2)] + flat[4:]
